@@ -287,7 +287,8 @@ fn burst(r: &mut StdRng, cat: &Arc<Cat>, log: &Arc<Mutex<Vec<Value>>>, out: &mut
     let rate = *[1u32, 3, 10, 40].choose(r).unwrap();
     let window = *[1u32, 2, 5].choose(r).unwrap();
     let nthreads = r.gen_range(2..=16usize);
-    let per = r.gen_range(1..60usize);
+    // mostly short bursts (the first touches of a fresh stream race), sometimes long ones (the limit is reached under contention)
+    let per = if r.gen_bool(0.7) { r.gen_range(1..8usize) } else { r.gen_range(8..60usize) };
     let yields = r.gen_bool(0.5);
     let mut params = RrlParams::new(rate, rate, rate, window).unwrap();
     params.set_slip(*[0usize, 1, 2].choose(r).unwrap());
